@@ -463,6 +463,12 @@ class Scenario(object):
             self.bq.enqueue = lambda env: enqueue(env, via='configured')
         self.store.lazy_load = bool(cfg.get('lazy_load'))
         self.store.fail_delivered = set(cfg.get('fail_delivered', ()))
+        # orphans: envelope files without a meta file (what a writer killed between its two renames leaves behind) among the
+        # messages the queue finds at start-up - not messages, and no reason to overlook the real ones
+        for k in range(cfg.get('orphans', 0)):
+            import os as _os
+            raw = self.inner.write(self.make_env(70 + k).copy(), CLOCK.now)
+            _os.unlink(_os.path.join(self.inner.ops.meta_dir, raw + '.meta'))
         # preload: messages that are in the storage when the queue starts (accepted by an earlier incarnation), due at once
         for k in range(cfg.get('preload', 0)):
             m = 80 + k
